@@ -16,5 +16,8 @@ theorem fact_pool_running : F1.Generated.skel_pool_running = F1.Expected.skel_po
 theorem fact_jobCounter_set : F1.Generated.skel_jobCounter_set = F1.Expected.skel_jobCounter_set := by rfl
 theorem fact_jobCounter_none : F1.Generated.skel_jobCounter_none = F1.Expected.skel_jobCounter_none := by rfl
 theorem fact_jobCounter_take : F1.Generated.skel_jobCounter_take = F1.Expected.skel_jobCounter_take := by rfl
+theorem fact_pool_Start : F1.Generated.skel_pool_Start = F1.Expected.skel_pool_Start := by rfl
+theorem fact_pool_new : F1.Generated.skel_pool_new = F1.Expected.skel_pool_new := by rfl
+theorem fact_api_NewIterationWorker : F1.Generated.skel_api_NewIterationWorker = F1.Expected.skel_api_NewIterationWorker := by rfl
 
 end F1.Props.FactsC02
